@@ -60,7 +60,7 @@ void h_super_bnd_dfs(void) {
   in_Glu.xsup = in_xsup; in_Glu.xsup_end = in_xsup_end; in_Glu.supno = in_supno; in_Glu.lsub = in_lsub; in_Glu.xlsub = in_xlsub; in_Glu.xlsub_end = in_xlsub_end;
 
   /* ---------- well-formed pre-state ---------- */
-  __CPROVER_assume(0 <= in_jcol && 1 <= in_w && in_w <= WMAX && in_jcol + in_w <= M);
+  __CPROVER_assume(0 <= in_jcol && WMIN <= in_w && in_w <= WMAX && in_jcol + in_w <= M);
   /* the columns of the H-supernode in A: extents inside rowind, at most ACOL entries each (bound of this unit), rows < m */
   for (c = 0; c < M; c++) if (in_jcol <= c && c < in_jcol + in_w)
     __CPROVER_assume(0 <= in_colbeg[c] && in_colbeg[c] <= in_colend[c] && in_colend[c] <= NZ && in_colend[c] - in_colbeg[c] <= ACOL);
